@@ -125,11 +125,12 @@ def edge_for_value(fn, bid, cond, atom, value):
     return s, True
 
 
-def can_reach(fn, start_block, targets):
-    """can any target position be reached from the start of start_block?"""
+def can_reach(fn, start_block, targets, avoid=()):
+    """can any target position be reached from the start of start_block
+    (without re-entering the blocks in `avoid`, normally the guard itself)?"""
     if start_block is None:
         return False
-    r = fn.reach_from([start_block])
+    r = fn.reach_from([start_block], avoid=avoid)
     return any(t[0] in r for t in targets)
 
 
@@ -161,7 +162,7 @@ def check_guard(rep, fn, name, atom_pred, domain, allowed, targets=None, rule="R
                 ok = False
                 why.append("condition at line %s not evaluable" % cond.get("ln"))
                 break
-            reach = can_reach(fn, s, targets)
+            reach = can_reach(fn, s, targets, avoid=[bid])
             if reach != (v in allowed):
                 ok = False
                 why.append("at line %s value %d %s reach the %s" % (
